@@ -17,6 +17,7 @@ import Driver.C13
 import Driver.C18
 import Driver.C11
 import Driver.C20
+import Driver.C15
 
 open Fontc Fontc.Driver
 
@@ -33,6 +34,7 @@ def handlers : List (String × Handler) :=
   |>.cons ("c14paths", C14.handlePaths)
   |>.cons ("c14emit", C14.handleEmit)
   |>.cons ("c16", C16.handle)
+  |>.cons ("c16e2e", C16.handleE2E)
   |>.cons ("c08", C08.handle)
   |>.cons ("c08mal", C08.handle)
   |>.cons ("c08e2e", C08.handleE2E)
@@ -44,14 +46,16 @@ def handlers : List (String × Handler) :=
   |>.cons ("c09wit", C09.handleE2E)
   |>.cons ("c10", C10.handle)
   |>.cons ("c10e2e", C10.handleE2E)
-  |>.cons ("c06", C06.handle) |>.cons ("c06glyphs", C06.handleGlyphs) |>.cons ("c06e2e", C06.handleE2E)
-  |>.cons ("c12e2e", C12.handle)
+  |>.cons ("c06", C06.handle) |>.cons ("c06glyphs", C06.handleGlyphs) |>.cons ("c06e2e", C06.handleE2E) |>.cons ("c06probe", C06.handleE2E)
+  |>.cons ("c12e2e", C12.handle) |>.cons ("c12dir", C12.handle)
   |>.cons ("c13lex", C13.handleLex)
   |>.cons ("c13inc", C13.handleInc)
   |>.cons ("c18", C18.handle) |>.cons ("c18e2e", C18.handleE2E)
   |>.cons ("c11", C11.handle)
   |>.cons ("c11x", C11.handle)
+  |>.cons ("c11adv", C11.handle)
   |>.cons ("c20plist", C20.handlePlist) |>.cons ("c20args", C20.handleArgs) |>.cons ("c20e2e", C20.handleE2E)
+  |>.cons ("c15graph", C15.handleGraph) |>.cons ("c15mut", C15.handleMut)
 
 def processLine (line : String) : String :=
   match Sexp.parse line with
